@@ -41,16 +41,21 @@ class C05(Prop):
         "PylifeVerif.C05.fkm_guideline_example_2_7_1_code",
         "PylifeVerif.C05.fkm_guideline_example_2_7_1",
     ]
-    PARTIAL = {"PylifeVerif.C05.hcm_batch_eq_single_code": "batch = single is proved under SignPreserving (a law whose secondary branch follows the sign of the load range - true for every monotone law; both stub laws satisfy it); for a non-monotone law the per-column min/max selection by the first point's values can differ between points"}
-    RULE = ("case = (load sequence of the first point, positive integer load ratios of 1-4 points, exact stub notch law); every column of "
+    PARTIAL = {"PylifeVerif.C05.hcm_batch_eq_single_code": "(the same hypotheses apply to hcm_batch_eq_single_LF_code and hcm_batch_eq_single) batch = single is proved for positive INTEGER factors and one Law shared by all points, under SignPreserving (a law whose secondary branch follows the sign of the load range - true for every monotone law; proved in Lean for the linear stub law, signPreserving_lawLinear); for a non-monotone law the per-column min/max selection by the first point's values can differ between points"}
+    RULE = ("case = (load sequence of a reference point, integer load factors of 1-4 points - first factor 1..3, later ones 0..4, 0 = unloaded point -, "
+            "one of six load_step label layouts, exact stub notch law; oracle-only cases with positive non-integer factors); every column of "
             "the recorder's collective (min/max load, stress, strain, running strain extremes, closed/half flag, zero-mean flag, pass number) and the "
             "visited strain values are compared bit-exactly with the model; the Lean guideline procedure is compared with the oracle's reference "
             "procedure; oracle: reference procedure vs implementation, batch vs single, negation mirror, derived columns; non-trivial = at least one "
-            "recorded hysteresis; distinct by (sequence, ratios, law)")
+            "recorded hysteresis; distinct by (sequence, ratios, law); compare also checks nfirst, iz, ir, the running maximum and the model's ghost record "
+            "of the reversals fed to the two passes against the reference feed")
     ASSUMPTIONS = [
         "loads/stresses/strains are integers; the notch law is a parameter: two stub laws with exact double arithmetic (linear; saturating, odd, monotone, non-linear strain). Real Binned laws: C07 (look-up) and C10 (whole assessment)",
         "the 1e-12 tolerances of fkm_nonlinear.py are inert on integers",
-        "pandas glue (MultiIndex load_step/node_id selection, concat, groupby) is covered by the correspondence only",
+        "pandas glue (MultiIndex load_step/node_id selection, concat, groupby) is covered by the correspondence only; node ids are always range(n), a one-node MultiIndex Series is not fed (C10 varies node ids and row orders)",
+        "derived columns (S_a, S_m, epsilon_a, epsilon_m, R with the Memory-3 overrides) and the first/second-run split of the strain values are not in the Lean model: oracle only",
+        "Spec.guideline is fed the model's own ghost record of the reversals handed to the passes; the oracle's ref_feed / ref_guideline are transcriptions by the same author that repeat the code's flush rule (incl. the open C04 finding) - the reading of the procedure is pinned to the published FKM guideline example 2.7.1 / table 2.24 (C05.fkm_guideline_example_2_7_1*)",
+        "notch_approximation_law.py is listed in SOURCES for its hash only: C05 runs stub laws",
     ]
 
     def __init__(self):
@@ -60,7 +65,8 @@ class C05(Prop):
     def generate(self, rng, tier):
         maxlen = 4 if tier == "quick" else 5
         self.exhaustive = True
-        self.stats["exhaustive_scope"] = f"all sequences over {LEVELS} of length 2..{maxlen} (>= 2 distinct values) x ratios [1],[1,2],[1,3,2] x 2 laws"
+        self.stats["exhaustive_scope"] = (f"all sequences over {LEVELS} of length 2..{maxlen} and over 7 levels of length 2..{maxlen - 1} (>= 2 distinct values), each with ONE "
+                                          "of the ratio sets [1],[1,2],[1,3,2], one of the two laws and one label layout chosen from the sequence")
         seen = set()
         for lv, ml in ((LEVELS, maxlen), ([-300, -200, -100, 0, 100, 200, 300], maxlen - 1)):
             for n in range(2, ml + 1):
